@@ -235,7 +235,7 @@ func (fx *FuncExec) havocArgs(st *State, args []Val, deep bool) {
 					key, h := fx.fieldHeap(st, t.Elem(), sty, i)
 					fs := fx.em.SortOf(sty.Field(i).Type())
 					st.heaps[key] = fx.em.DefineRaw(key, arrSort(fs), sto(h, a.S, fx.em.Fresh("argfld", fs)))
-					fx.logWrite(key)
+					fx.logWriteAt(key, a.S)
 				}
 			} else if _, isArr := t.Elem().Underlying().(*types.Array); !isArr {
 				fx.StoreThrough(st, a, fx.freshVal(t.Elem(), "argptr", st))
@@ -249,7 +249,7 @@ func (fx *FuncExec) havocArgs(st *State, args []Val, deep bool) {
 			key := elemKey(t.Elem())
 			h := fx.heapTerm(st, key, arr2Sort(es), t.Elem())
 			st.heaps[key] = fx.em.DefineRaw(key, arr2Sort(es), sto(h, "(s.arr "+a.S+")", fx.em.FreshRaw("argarr", arrSort(es))))
-			fx.logWrite(key)
+			fx.logWriteAt(key, "(s.arr "+a.S+")")
 		}
 	}
 }
@@ -402,7 +402,19 @@ func (fx *FuncExec) applyContract(st *State, instr ssa.Instruction, fc *FuncCont
 		env2.results = []Val{res}
 	}
 	for _, e := range fc.Ensures {
-		fx.assume(st, fx.evalBool(env2, e))
+		// a postcondition that mentions the callee's locals says nothing a caller can use: not
+		// assuming it is sound
+		func() {
+			defer func() {
+				if r := recover(); r != nil {
+					if tl, ok := r.(toolLimitErr); ok && strings.Contains(tl.msg, "unknown identifier") {
+						return
+					}
+					panic(r)
+				}
+			}()
+			fx.assume(st, fx.evalBool(env2, e))
+		}()
 	}
 	fx.callStats["contract"]++
 	return res
@@ -428,7 +440,7 @@ func (fx *FuncExec) havocLocation(st *State, env *SpecEnv, m Clause) {
 				key := elemKey(el)
 				h := fx.heapTerm(st, key, arr2Sort(es), el)
 				st.heaps[key] = fx.em.DefineRaw(key, arr2Sort(es), sto(h, "(s.arr "+s.S+")", fx.em.FreshRaw("mod", arrSort(es))))
-				fx.logWrite(key)
+				fx.logWriteAt(key, "(s.arr "+s.S+")")
 				return
 			case "mapof":
 				mv := fx.evalSpec(&SpecEnv{fx: fx, cur: env.old, old: env.old, bind: env.bind, calleeFn: env.calleeFn, calleeMode: env.calleeMode}, call.Args[0])
@@ -437,8 +449,8 @@ func (fx *FuncExec) havocLocation(st *State, env *SpecEnv, m Clause) {
 				ks, vs := fx.em.SortOf(mt.Key()), fx.em.SortOf(mt.Elem())
 				st.heaps[dk] = fx.em.DefineRaw(dk, fx.heapInfos[dk].sortText, sto(dh, mv.S, fx.em.FreshRaw("mod", fmt.Sprintf("(Array %s Bool)", ks))))
 				st.heaps[vk] = fx.em.DefineRaw(vk, fx.heapInfos[vk].sortText, sto(vh, mv.S, fx.em.FreshRaw("mod", fmt.Sprintf("(Array %s %s)", ks, vs))))
-				fx.logWrite(dk)
-				fx.logWrite(vk)
+				fx.logWriteAt(dk, mv.S)
+				fx.logWriteAt(vk, mv.S)
 				return
 			case "all":
 				// all(T.f): the whole field heap
@@ -569,7 +581,7 @@ func (fx *FuncExec) execBuiltin(st *State, instr ssa.Instruction, b *ssa.Builtin
 		case SSlice:
 			return iv("(s.len " + a.S + ")")
 		case SStr:
-			return iv("(str.len " + a.S + ")")
+			return iv("(gs.len " + a.S + ")")
 		case SInt:
 			if _, ok := a.T.Underlying().(*types.Map); ok {
 				fx.em.Assert(fmt.Sprintf("(>= (map.len %s) 0)", a.S))
@@ -597,7 +609,7 @@ func (fx *FuncExec) execBuiltin(st *State, instr ssa.Instruction, b *ssa.Builtin
 		dk, _, dh, _ := fx.mapHeaps(st, m)
 		fx.checkGuardMap(st, instr.(ssa.CallInstruction).Common().Args[0], instr.Pos())
 		st.heaps[dk] = fx.em.DefineRaw(dk, fx.heapInfos[dk].sortText, ite(eq(args[0].S, "0"), dh, sto(dh, args[0].S, sto(sel(dh, args[0].S), args[1].S, "false"))))
-		fx.logWrite(dk)
+		fx.logWriteAt(dk, args[0].S)
 		return Val{}
 	case "print", "println":
 		return Val{}
@@ -630,8 +642,8 @@ func (fx *FuncExec) execAppend(st *State, instr ssa.Instruction, s, xs Val, rt t
 	var xlen string
 	var xat func(i string) string
 	if xs.Sort == SStr {
-		xlen = "(str.len " + xs.S + ")"
-		xat = func(i string) string { return fmt.Sprintf("(str.at %s %s)", xs.S, i) }
+		xlen = "(gs.len " + xs.S + ")"
+		xat = func(i string) string { return fmt.Sprintf("(gs.at %s %s)", xs.S, i) }
 	} else {
 		xlen = "(s.len " + xs.S + ")"
 		xat = func(i string) string {
@@ -663,7 +675,7 @@ func (fx *FuncExec) execAppend(st *State, instr ssa.Instruction, s, xs Val, rt t
 			inner, lo, lo, xlen, xat("(- j "+lo+")"), base, inner))
 	}
 	st.heaps[key] = fx.em.DefineRaw(key, arr2Sort(es), sto(h, arrR, inner))
-	fx.logWrite(key)
+	fx.logWriteAt(key, "(s.arr "+s.S+")") // the reallocated array is fresh
 	return Val{T: rt, Sort: SSlice, S: fmt.Sprintf("(mkSlice %s %s %s %s)", arrR, offR, n, ite(inplace, "(s.cap "+s.S+")", ncap))}
 }
 
@@ -675,8 +687,8 @@ func (fx *FuncExec) execCopy(st *State, instr ssa.Instruction, dst, src Val) Val
 	var slen string
 	var sat func(i string) string
 	if src.Sort == SStr {
-		slen = "(str.len " + src.S + ")"
-		sat = func(i string) string { return fmt.Sprintf("(str.at %s %s)", src.S, i) }
+		slen = "(gs.len " + src.S + ")"
+		sat = func(i string) string { return fmt.Sprintf("(gs.at %s %s)", src.S, i) }
 	} else {
 		slen = "(s.len " + src.S + ")"
 		sat = func(i string) string { return sel(sel(h, "(s.arr "+src.S+")"), add("(s.off "+src.S+")", i)) }
@@ -687,7 +699,7 @@ func (fx *FuncExec) execCopy(st *State, instr ssa.Instruction, dst, src Val) Val
 	fx.em.Assert(fmt.Sprintf("(forall ((j Int)) (! (= (select %s j) (ite (and (<= %s j) (< j (+ %s %s))) %s (select (select %s (s.arr %s)) j))) :pattern ((select %s j))))",
 		inner, lo, lo, n, sat("(- j "+lo+")"), h, dst.S, inner))
 	st.heaps[key] = fx.em.DefineRaw(key, arr2Sort(es), sto(h, "(s.arr "+dst.S+")", inner))
-	fx.logWrite(key)
+	fx.logWriteAt(key, "(s.arr "+dst.S+")")
 	return Val{T: types.Typ[types.Int], Sort: SInt, S: n}
 }
 
@@ -739,8 +751,8 @@ func (fx *FuncExec) execLock(st *State, mu Val, pos token.Pos) {
 				ks, vs := fx.em.SortOf(mt.Key()), fx.em.SortOf(mt.Elem())
 				st.heaps[dk] = fx.em.DefineRaw(dk, fx.heapInfos[dk].sortText, sto(dh, cur.S, fx.em.FreshRaw("lock", fmt.Sprintf("(Array %s Bool)", ks))))
 				st.heaps[vk] = fx.em.DefineRaw(vk, fx.heapInfos[vk].sortText, sto(vh, cur.S, fx.em.FreshRaw("lock", fmt.Sprintf("(Array %s %s)", ks, vs))))
-				fx.logWrite(dk)
-				fx.logWrite(vk)
+				fx.logWriteAt(dk, cur.S)
+				fx.logWriteAt(vk, cur.S)
 				continue // the map reference itself is stable unless a guarantee says otherwise
 			}
 			nv := fx.freshVal(ft, "lock:"+g, st)
@@ -758,7 +770,7 @@ func (fx *FuncExec) execLock(st *State, mu Val, pos token.Pos) {
 			key := "F:" + ts.Name + ".$" + g
 			h := fx.heapTerm(st, key, gs, owner)
 			st.heaps[key] = fx.em.DefineRaw(key, gs, sto(h, obj, fx.em.FreshRaw("lock:$"+g, ghostElemSort(ts.Ghost[g]))))
-			fx.logWrite(key)
+			fx.logWriteAt(key, obj)
 		}
 		self := Val{T: types.NewPointer(owner), Sort: SInt, S: obj}
 		env := &SpecEnv{fx: fx, cur: st, old: st, bind: map[string]Val{"self": self}, calleeMode: true, pkgOf: owner}
